@@ -4,7 +4,7 @@ from hypothesis import strategies as st
 from vlib import hyp, corrupt, fsgen, core, tool, e4ref
 LEVEL = 'exploration'
 MODES = ['-fp', '-fy', '-fyD', '-fy -E bmap2extent', '-fy -E fixes_only']
-RULE = ('Hypothesis draws (configuration out of %d, population recipe, 0-4 extra generated population ops (directories up to 900 entries with names 1-250 bytes, files, symlinks, xattrs, sparse files), repair mode out of %s, '
+RULE = ('Hypothesis draws (configuration out of %d, population recipe, 0-4 extra generated population ops (directories up to 900 entries with names 1-250 bytes incl. names starting with dots/dashes/high bytes, files, symlinks, xattrs, sparse files, files mixing adjacent written/unwritten extents in needlessly deep extent trees, split extent roots), repair mode out of %s, '
         'and either no damage (class healthy) or 1-5 mutations confined to bitmap bits, per-group counts, ITABLE_ZEROED and checksum fields (class summary)); '
         'oracle: digest (path, type, size, content sha256, mode, uid, gid, nlink, hard-link group, symlink target, xattrs) computed by the independent reader e4ref before and after the run must be equal, '
         'the exit status must be 0 or 1 (class summary under -fp: preen may decline - exit 4, or 8 when the primary superblock checksum is stale and preen does not try backups - which is not a claimed repair, but the files must still be intact), and a following e2fsck -fn must exit 0; '
@@ -13,7 +13,7 @@ CFG_NAMES = [c['name'] for c in fsgen.CONFIGS]
 RECIPES = hyp.RECIPES + [dict(dirents=420, longnames=200, frag=20)]
 
 summary_mut = st.tuples(st.integers(0, 4), st.integers(0, 63), st.integers(0, 500), st.integers(0, 1 << 16), st.booleans())
-extra_op = st.tuples(st.integers(0, 4), st.integers(0, 2000), st.integers(0, 6000))
+extra_op = st.tuples(st.integers(0, fsgen.NKINDS - 1), st.integers(0, 2000), st.integers(0, 6000))
 
 def strategy(env):
     return st.fixed_dictionaries(dict(cfg=st.sampled_from(CFG_NAMES), recipe=st.integers(0, len(RECIPES) - 1), mode=st.integers(0, len(MODES) - 1),
@@ -34,8 +34,7 @@ def body(case, env):
     if tpl is None: return (None, fp, False, None, classes + ['skip:template-build-failed'])
     img = hyp.fresh_copy(env, tpl); t = env['asan']
     if case['extras']:
-        scr = fsgen.extras_script([tuple(x) for x in case['extras']], env['blobs'], cfg['bs'])
-        env['plain'].dbg(img, scr, write=True, cpu=120)
+        fsgen.extras_apply(env['plain'], img, case['extras'], env['blobs'], cfg['bs'], extent_fs=cfg['fstype'] == 'ext4')
         if 'quota' in cfg['features']: env['plain'].fsck(img, '-fy')
         if env['plain'].fsck(img, '-fn').rc != 0: return (None, fp, False, None, classes + ['skip:base-not-clean-after-extras'])
         classes.append('extras:%d' % len(case['extras']))
